@@ -14,7 +14,7 @@ from ..choice import Chooser, Streams
 from ..loop import PAUSE, Cancel
 from ..runner import Outcome
 from ..tools import TOOLS, draw_cfg, Gen, lib
-from .common import COMPONENTS_BASE, run_sim, new_sim, finish_outcome, enumerate_faults
+from .common import set_interrupts, COMPONENTS_BASE, run_sim, new_sim, finish_outcome, enumerate_faults
 
 PID = "C08"
 LEVEL = "fault_enumeration"
@@ -114,7 +114,7 @@ def describe_ops(ops):
 
 def run_block(prep, st, mode, pos, interrupts):
     sim = new_sim(st, interrupts=False)
-    sim.interrupt_den = interrupts
+    set_interrupts(sim, interrupts)
     world = World(sim)
     L = lib()
     src = make_async_source(world, prep.src)
